@@ -1,18 +1,92 @@
 """C05 - every produced array is well-formed and history-independent.
 
 (a) constructor forms: all documented ways of giving the same axes build equal arrays; shape
-    mismatches and duplicate names are rejected;
+    mismatches and duplicate names are rejected (`ctor`, `helper` against the Lean mirror; `ctor2`,
+    `helper2`, `axset` - forms the mirror does not model - against an oracle written from the case);
 (b) histories: an array that went through a sequence of operations answers further operations like a
-    freshly built array with the same values / labels / dims (see `hist` cases);
+    freshly built array with the same values / labels / dims (see `hist` cases); every live array and every
+    variable of every live Dataset is well-formed at the end of the history;
 (c) a monitor wraps DimArray.__init__ during the run and checks well-formedness of every array the
     library constructs.
 """
-import copy, itertools, json
+import copy, itertools, json, warnings
 from collections import OrderedDict
 import numpy as np
 import core, gen
-from core import da, Axis, DimArray
+from core import da, Axis, DimArray, Dataset, MultiAxis
+from dimarray.core.axes import Axes
 from .base import Prop
+
+# ---------------------------------------------------------------- open defect candidates (see report)
+# TODO(defect): a grouped axis (MultiAxis, result of flatten / reshape) shares its member Axis objects with the
+# array it was made from and caches its tuple labels / name: relabelling or renaming a member (through ANY array that
+# shares it, e.g. the source of the flatten) after the grouped labels were read leaves the grouped array answering
+# with the old labels (`b = a.flatten(); b.labels; a.axes[0][0] = 99; b.labels` vs `b.unflatten().labels`).
+# While this is open the history steps do not mutate an Axis that is a member of a live grouped axis.
+SKIP_GROUPED_MEMBER_MUTATION = True
+# TODO(defect): `a.axes = <list of label arrays | (name, labels) pairs | Axis objects>` with a wrong length or a wrong
+# number of axes is accepted (only an `Axes` instance is size-checked): the array is left ill-formed. While this is
+# open the `axset` stratum generates wrong sizes / counts only through the `Axes` form.
+SKIP_AXES_SETTER_UNCHECKED = True
+# TODO(defect): `Axis.sort()` (in-place sort of the labels) sets the cached monotonicity flag to True although
+# `is_monotonic()` of a freshly built axis is STRICT: on labels with duplicates ([2, 1, 2] -> [1, 2, 2]) the sorted axis
+# answers is_monotonic() == True (fresh: False) and every later union / arithmetic / align takes the sorted-merge path
+# (np.union1d: duplicates dropped, labels re-ordered) instead of the concatenation path of a fresh array.
+# While this is open the `sort_inplace` step skips axes whose labels are not all distinct.
+SKIP_SORT_INPLACE_DUPLICATES = True
+# TODO(defect): the 1-D shortcuts spelt with an EMPTY python list, `DimArray(v, axes=('x', []))` (TypeError) and
+# `DimArray(v, axes=[], dims='x')` (read as "no axes": shape mismatch), are rejected although the same request with an
+# empty ndarray is accepted (tools.is_array1d_equiv reads a[0]).  While this is open the list spellings need size >= 1.
+SKIP_EMPTY_LIST_SHORTCUT = True
+# TODO(defect): flatten / reshape return an array whose grouped axis cannot report its labels (`.values`, repr raise)
+# (1) when one of the grouped dimensions has length 0 (IndexError in axes._flatten), (2) when one of the grouped
+# dimensions is itself a grouped axis (NumPy 2: ValueError "inhomogeneous shape" in axes._flatten).
+# While this is open the `flatten` / `reshape` steps group plain, non-empty dimensions only.
+SKIP_FLATTEN_EMPTY_OR_NESTED = True
+
+
+# ---------------------------------------------------------------- well-formedness (statement of the property)
+def _flat_members(ax):
+    out = []
+    for m in ax.axes:
+        if isinstance(m, MultiAxis):
+            out += _flat_members(m)
+        else:
+            out.append(m)
+    return out
+
+
+def wf_problem(a, touch=True):
+    """None when `a` is well-formed in the sense of the property (one 1-D axis per dimension, of the length of
+    that dimension, distinct non-empty str names), else a short name of what is wrong.
+    touch=False: do not read the lazily computed labels / size of a grouped axis (the monitor must not populate caches)"""
+    try:
+        axes = list(a.axes)
+        vshape = tuple(np.shape(a.values))
+        if len(axes) != len(vshape):
+            return "axes_count"
+        for i, ax in enumerate(axes):
+            if isinstance(ax, MultiAxis) and not touch:
+                n = 1
+                for m in _flat_members(ax):
+                    n *= int(m.values.size)
+            else:
+                if np.ndim(ax.values) != 1:
+                    return "axis_not_1d"
+                n = int(np.shape(ax.values)[0])
+                if int(ax.size) != n:
+                    return "axis_size"
+            if n != vshape[i]:
+                return "axis_length"
+        dims = [ax.name for ax in axes]
+        if not all(isinstance(d, str) and d for d in dims):
+            return "dim_name"
+        if len(set(dims)) != len(dims):
+            return "dup_dim_name"
+    except Exception as e:  # noqa
+        return "unobservable:" + type(e).__name__
+    return None
+
 
 # ---------------------------------------------------------------- monitor (c)
 MON = {"constructed": 0, "illformed": []}
@@ -22,16 +96,9 @@ _orig_init = DimArray.__init__
 def _checked_init(self, *a, **k):
     _orig_init(self, *a, **k)
     MON["constructed"] += 1
-    try:
-        dims = [ax.name for ax in self.axes]
-        ok = (len(self.axes) == self.values.ndim
-              and all(np.ndim(ax.values) == 1 or hasattr(ax, "axes") for ax in self.axes)
-              and tuple(ax.size for ax in self.axes) == self.values.shape
-              and all(isinstance(d, str) and d for d in dims) and len(set(dims)) == len(dims))
-    except Exception as e:  # noqa
-        ok = False
-    if not ok and len(MON["illformed"]) < 5:
-        MON["illformed"].append({"dims": [getattr(ax, "name", None) for ax in self.axes], "shape": list(np.shape(self.values))})
+    why = wf_problem(self, touch=False)
+    if why and len(MON["illformed"]) < 5:
+        MON["illformed"].append({"why": why, "dims": [getattr(ax, "name", None) for ax in self.axes], "shape": list(np.shape(self.values))})
 
 
 def monitor_on():
@@ -106,6 +173,207 @@ def lean_variant(form, axes):
     raise ValueError(form)
 
 
+# ---------------------------------------------------------------- forms the Lean mirror does not model (ctor2)
+MASK_EVERY = 3      # masked forms: flat cell i is masked iff i % 3 == 1
+
+
+def _py_label(l, kind):
+    return core.dec_label(l, kind)
+
+
+def _nest(vals, axes, level, mk):
+    """values as nested mappings keyed by the labels (innermost: python scalars)"""
+    if level == len(axes):
+        return vals.item()
+    ax = axes[level]
+    return mk([(_py_label(l, ax["kind"]), _nest(vals[i], axes, level + 1, mk)) for i, l in enumerate(ax["labels"])])
+
+
+def build_variant2(form, axes, values):
+    """constructor forms outside the Lean mirror; `values` is an ndarray"""
+    dims = [a["name"] for a in axes]
+    labs = [py_labels(a) for a in axes]
+    pairs = list(zip(dims, labs))
+    objs = lambda: [Axis(l, d) for d, l in pairs]
+    if form == "dtype_f":
+        return DimArray(values, axes=pairs, dtype=float)
+    if form == "dtype_f_list":
+        return DimArray(values.tolist(), axes=labs, dims=dims, dtype=float)
+    if form == "copy":
+        r = DimArray(values, axes=pairs, copy=True)
+        if isinstance(r.values, np.ndarray) and values.size and np.shares_memory(r.values, values):
+            raise AssertionError("copy=True shares memory with the input")      # np.array(copy=True) semantics
+        return r
+    if form == "from_dimarray":
+        return DimArray(DimArray(values, axes=objs()))
+    if form == "from_dimarray_dtype":
+        return DimArray(DimArray(values, axes=objs()), dtype=float)
+    if form == "values+Axes":
+        src = DimArray(values, axes=objs())
+        return DimArray(src.values, src.axes)
+    if form == "values+Axes_kw":
+        return DimArray(values, axes=Axes(objs()))
+    if form in ("masked", "masked_nomask"):
+        m = (np.arange(values.size).reshape(values.shape) % MASK_EVERY == 1) if form == "masked" else np.zeros(values.shape, dtype=bool)
+        return DimArray(np.ma.array(values, mask=m), axes=pairs)
+    if form == "novalues_pairs":
+        return DimArray(axes=pairs)
+    if form == "novalues_lists":
+        return DimArray(axes=labs, dims=dims)
+    if form == "novalues_objs":
+        return DimArray(axes=objs())
+    # 1-D shortcuts
+    if form == "tuple1d":
+        return DimArray(values, axes=(dims[0], labs[0]))
+    if form == "tuple1d_list":
+        return DimArray(values, axes=(dims[0], labs[0].tolist()))
+    if form == "arr1d+dim":
+        return DimArray(values, axes=labs[0], dims=dims[0])
+    if form == "list1d+dim":
+        return DimArray(values, axes=labs[0].tolist(), dims=dims[0])
+    if form == "labels1d+dim":
+        return DimArray(values, labels=labs[0], dims=dims[0])
+    # nested data
+    if form == "nested_dict":
+        return DimArray(_nest(values, axes, 0, dict), dims=dims)
+    if form == "nested_odict":
+        return DimArray(_nest(values, axes, 0, OrderedDict), dims=dims)
+    if form == "from_nested_dict":
+        return DimArray.from_nested(_nest(values, axes, 0, dict), dims=dims)
+    if form == "list_of_dicts":
+        return DimArray([_nest(values[i], axes, 1, dict) for i in range(values.shape[0])], dims=dims, labels=[labs[0]])
+    if form == "list_of_dicts_axes":
+        return DimArray([_nest(values[i], axes, 1, dict) for i in range(values.shape[0])], dims=dims, axes=[labs[0]])
+    if form == "from_nested_lists":
+        return DimArray.from_nested(values.tolist(), dims=dims, labels=labs)
+    if form == "dict_of_arrays":
+        a0 = axes[0]
+        return DimArray(OrderedDict((_py_label(l, a0["kind"]), values[i]) for i, l in enumerate(a0["labels"])), dims=dims, labels=labs)
+    if form == "dict_of_dimarrays":
+        a0 = axes[0]
+        return DimArray(OrderedDict((_py_label(l, a0["kind"]), DimArray(values[i], axes=pairs[1:])) for i, l in enumerate(a0["labels"])), dims=dims)
+    raise ValueError(form)
+
+
+def expected2(form, axes, values):
+    """what the property demands of a well-formed request, written from the case: the dims, the labels and the
+    values of the array every form must build"""
+    v = values
+    if form in ("dtype_f", "dtype_f_list", "from_dimarray_dtype"):
+        v = values.astype(float)
+    elif form == "masked":
+        v = values.astype(float)
+        v[np.arange(values.size).reshape(values.shape) % MASK_EVERY == 1] = np.nan      # "replace mask by NaN"
+    elif form.startswith("novalues"):
+        v = np.full(values.shape, np.nan)          # "empty data, filled with NaNs if dtype is float"
+    out = {"dims": [a["name"] for a in axes], "shape": list(values.shape), "labels": [a["labels"] for a in axes],
+           "values": [core.canon_value(x) for x in v.reshape(-1).tolist()]}
+    if form in ("dtype_f", "dtype_f_list", "from_dimarray_dtype") or form.startswith("novalues"):
+        out["vkind"] = "f"
+    return out
+
+
+def diff_expected(o, exp):
+    bad = []
+    if o["dims"] != exp["dims"]:
+        bad.append("dims")
+    if o["shape"] != exp["shape"]:
+        bad.append("shape")
+    if [a["name"] for a in o["axes"]] != exp["dims"]:
+        bad.append("axes.name")
+    if [a["labels"] for a in o["axes"]] != exp["labels"]:
+        bad.append("axes.labels")
+    if "values" in exp and o["values"] != exp["values"]:
+        bad.append("values")
+    if exp.get("vkind") and o["vkind"] != exp["vkind"]:
+        bad.append("values.dtype")
+    return bad
+
+
+DUMMY = {"op": "construct_group", "shape": [], "vkind": "f", "variants": []}
+
+# ---------------------------------------------------------------- histories
+OLD_PROBES = {"dim": ["add", "radd", "align", "align_sort", "reindex", "sort_axis", "slice", "loc_first", "is_monotonic"], "arr": []}
+DIM_PROBES = ["add", "radd", "align", "align_inner", "align_sort", "reindex", "sort_axis", "slice", "loc_first", "is_monotonic",
+              "sum", "cumsum", "concat", "union", "intersection", "take_pos", "reindex_like"]
+ARR_PROBES = ["repr", "flatten", "unflatten", "transpose", "stack", "dataset", "neg", "copy", "labels", "sizes", "eq"]
+QUERIES = ["add_other", "is_monotonic", "align_other", "sort_axis", "reindex_other", "radd_other", "align_inner", "repr",
+           "labels", "flat_labels", "sum", "union", "sizes"]
+STEP_W = [("query", 20), ("slice", 7), ("take", 5), ("transpose", 3), ("sort_key", 3), ("copy", 2), ("relabel", 8),
+          ("set_values", 3), ("sort_inplace", 5), ("set_labels", 8), ("rename", 7), ("reduce", 5), ("cum", 3),
+          ("flatten", 5), ("unflatten", 2), ("reshape", 2), ("newaxis", 2), ("squeeze", 1), ("swapaxes", 2),
+          ("broadcast", 1), ("stack", 3), ("concat", 3), ("arith", 4), ("reindex", 3), ("reindex_like", 1), ("align", 3),
+          ("dropna", 2), ("ctor_from", 4), ("index", 3), ("setitem", 6), ("ds_new", 4), ("ds_put", 2), ("ds_get", 3),
+          ("ds_op", 3), ("ds_mut", 3)]
+SET_VIA = ["values_setter", "values_setter", "set_axis_list", "set_axis_dict", "set_axis_fn", "labels_setter", "axes_setitem", "axis_set",
+           "set_axis_copy"]
+SET_HOW = ["rev", "rot", "rot", "neg", "shift", "same", "sorted", "sorted", "swap", "longer"]
+MAX_ENV, MAX_DS, MAX_CELLS, MAX_PROBED = 12, 3, 400, 9
+
+
+class HistState:
+    def __init__(self, env):
+        self.env = env
+        self.dss = []
+        self.n = 0          # counter behind fresh dimension / variable names
+
+    def fresh(self, p):
+        self.n += 1
+        return "%s%d" % (p, self.n)
+
+    def arrays(self):
+        out, seen = [], set()
+        for a in self.env + [v for ds in self.dss for v in ds.values()]:
+            if id(a) not in seen:
+                seen.add(id(a))
+                out.append(a)
+        return out
+
+    def is_live_member(self, ax):
+        for arr in self.arrays():
+            if not isinstance(arr, DimArray):
+                continue
+            for g in arr.axes:
+                if isinstance(g, MultiAxis) and any(m is ax for m in _flat_members(g)):
+                    return True
+        return False
+
+
+def _is_num(vals):
+    return vals.dtype.kind in "iuf"
+
+
+def _obj_array(items):
+    out = np.empty(len(items), dtype=object)
+    for i, v in enumerate(items):
+        out[i] = v
+    return out
+
+
+def fresh_of(a):
+    """a freshly constructed array with the same values, labels and dims"""
+    def fa(ax):
+        if isinstance(ax, MultiAxis):
+            return MultiAxis(*[fa(m) for m in ax.axes])
+        return Axis(np.array(ax.values, copy=True), ax.name)
+    return DimArray(np.array(a.values, copy=True), axes=[fa(ax) for ax in a.axes])
+
+
+def conv(r):
+    """result of a probe -> comparable observation"""
+    if isinstance(r, DimArray):
+        return core.obs_array(r)
+    if isinstance(r, Dataset):
+        return {"dataset": [[str(k), core.obs_array(v)] for k, v in r.items()]}
+    if isinstance(r, (list, tuple)):
+        return [conv(x) for x in r]
+    if isinstance(r, np.ndarray):
+        return [core.enc_label(v) for v in (r.tolist() if r.dtype.kind != "O" else list(r.reshape(-1)))]
+    if isinstance(r, np.generic):
+        return core.canon_value(r)
+    return r
+
+
 class C05(Prop):
     id = "C05"
     theorems = ["appendAll_ok_iff", "appendAll_rejects_duplicates", "initAxes_forms_agree", "construct_wf",
@@ -114,8 +382,19 @@ class C05(Prop):
             "documented form (label lists + dims, lists as python lists, (name, labels) pairs, Axis objects, dict + dims, "
             "OrderedDict, dict without dims, labels= keyword, names only, nothing) with values as ndarray / nested list / "
             "scalar, plus malformed variants (wrong length on one axis, duplicate or empty names, too few dims); the "
-            "helpers zeros/ones/empty/nans; (c) DimArray.__init__ wrapped during the run: every array the library "
-            "constructs is checked for well-formedness. Non-trivial = rank >= 1; distinct = canonical JSON")
+            "helpers zeros/ones/empty/nans; ctor2 (oracle only): dtype= / copy= / values=<DimArray> / (values, Axes) / masked "
+            "arrays / no values / the 1-D shortcuts / nested dicts, lists of dicts, dicts of arrays and of DimArrays, from_nested; "
+            "helper2: shape=, dtype=, *_like; axset: the `axes` setter (accepted forms, rejected sizes / counts / duplicate names); "
+            "(b) histories over 1-2 arrays of rank 1-3 with int/float/str labels: queries, position slices / takes, transposes, "
+            "keyed sorts, copies, relabelling through every setter (incl. wrong lengths, which must be refused), renaming through "
+            "every setter, in-place sort of an axis, assignment (values setter, label / position / put / boolean / fill), reductions, "
+            "cumulatives, flatten / unflatten / reshape, newaxis / squeeze / swapaxes / broadcast, stack / concatenate, arithmetic, "
+            "reindex / align, dropna / fillna, DimArray(a) / *_like, Dataset insertion / extraction / operations; systematic grids "
+            "(every label setter x kind of new labels on a cache-primed axis; every derivation followed by a change of the derived "
+            "array's labels / name) plus random histories; then every live array and every Dataset variable is checked for "
+            "well-formedness and probed against a freshly built equal array; "
+            "(c) DimArray.__init__ wrapped during the run: every array the library constructs is checked for well-formedness. "
+            "Non-trivial = rank >= 1; distinct = canonical JSON")
     assumptions = ["dimension names are comma-free non-empty strings (the quantifier of the property)"]
 
     def mirrors(self):
@@ -182,47 +461,257 @@ class C05(Prop):
         return {"op": "helper", "axes": [gen.clean(a) for a in arr["axes"]], "helper": rng.choice(["zeros", "ones", "empty", "nans"]),
                 "form": rng.choice(["lists+dims", "pairs", "objs"])}
 
-    def gen_hist(self, rng):
-        """a history of derivations, queries and relabellings over a few live arrays, then probes"""
-        rank = rng.choice([1, 1, 2])
-        arr = gen.clean(gen.rand_array(rng, rank=rank, maxn=5, minn=2, kinds=[rng.choice(["i", "i", "f"]) for _ in range(rank)]))
+    def gen_ctor2(self, rng):
+        """constructor forms outside the Lean mirror, judged by the oracle alone"""
+        r = rng.random()
+        malformed = None
+        if r < 0.3:
+            # the 1-D shortcuts
+            rank = 1
+            arr = gen.rand_array(rng, rank=1, maxn=4)
+            forms = ["tuple1d", "tuple1d_list", "arr1d+dim", "list1d+dim", "labels1d+dim"]
+            if SKIP_EMPTY_LIST_SHORTCUT and not arr["axes"][0]["labels"]:
+                forms = ["tuple1d", "arr1d+dim", "labels1d+dim"]       # TODO(defect): see SKIP_EMPTY_LIST_SHORTCUT
+            if rng.random() < 0.25:
+                malformed = "size"
+        elif r < 0.65:
+            # nested data: every label keys a sub-mapping (sizes >= 1)
+            rank = rng.choice([1, 2, 2, 3])
+            arr = gen.rand_array(rng, rank=rank, maxn=3, minn=1)
+            forms = ["nested_dict", "nested_odict", "from_nested_dict", "from_nested_lists"]
+            if rank >= 2:
+                forms += ["list_of_dicts", "list_of_dicts_axes", "dict_of_dimarrays"]
+            if rank == 2:
+                forms += ["dict_of_arrays"]
+            if rank >= 2 and rng.random() < 0.15:
+                malformed = "dupname"
+        else:
+            rank = rng.choice([0, 1, 2, 2, 3])
+            arr = gen.rand_array(rng, rank=rank, maxn=4)
+            forms = ["dtype_f", "dtype_f_list", "copy", "from_dimarray", "from_dimarray_dtype", "values+Axes", "values+Axes_kw",
+                     "masked", "masked_nomask", "novalues_pairs", "novalues_lists", "novalues_objs"]
+            q = rng.random()
+            if q < 0.15 and rank >= 1:
+                malformed = "size"
+                forms = ["dtype_f", "copy", "masked", "masked_nomask", "values+Axes_kw"]
+            elif q < 0.3 and rank >= 2:
+                malformed = "dupname"
+                forms = ["dtype_f", "copy", "masked", "novalues_pairs", "novalues_lists", "novalues_objs"]
+        axes = [gen.clean(a) for a in arr["axes"]]
+        shape = [len(a["labels"]) for a in axes]
+        if 0 in shape and len(shape) >= 2:
+            forms = [f for f in forms if f != "dtype_f_list"]      # a nested list cannot express a shape such as (0, 3)
+        if malformed == "dupname":
+            axes[1]["name"] = axes[0]["name"]
+        if malformed == "size":
+            shape[rng.randrange(rank)] += 1
+        return {"op": "ctor2", "axes": axes, "shape": shape, "vkind": arr["vkind"], "forms": forms, "_malformed": malformed}
+
+    def gen_helper2(self, rng):
+        rank = rng.choice([1, 2, 3])
+        arr = gen.rand_array(rng, rank=rank, maxn=3)
+        helper = rng.choice(["zeros", "ones", "empty", "nans"])
+        form = rng.choice(["shape+dims", "shape", "pos_pairs", "dtype", "like", "like_dtype", "axes+shape", "axes+shape_bad"])
+        if helper == "nans" and form in ("dtype", "like_dtype"):
+            form = "like"
+        return {"op": "helper2", "axes": [gen.clean(a) for a in arr["axes"]], "helper": helper, "form": form,
+                "dtype": rng.choice(["int", "bool", "float"]), "vkind": arr["vkind"]}
+
+    def gen_axset(self, rng):
+        """assignment to the `axes` attribute: accepted when the sizes agree, rejected otherwise"""
+        rank = rng.choice([1, 2, 2, 3])
+        arr = gen.rand_array(rng, rank=rank, maxn=4)
+        old = [gen.clean(a) for a in arr["axes"]]
+        names = rng.sample(gen.DIMS + ["u", "v"], rank)
+        new = [gen.clean(gen.rand_axis(rng, n, n=len(o["labels"]))) for n, o in zip(names, old)]
+        form = rng.choice(["lists", "pairs", "objs", "Axes", "Axes"])
+        malformed = None
+        r = rng.random()
+        if r < 0.3:
+            malformed = "size"
+            d = rng.randrange(rank)
+            new[d] = gen.clean(gen.rand_axis(rng, names[d], n=len(old[d]["labels"]) + rng.choice([1, 2])))
+        elif r < 0.4:
+            malformed = "count"
+            if rng.random() < 0.5 and rank >= 2:
+                new = new[:-1]
+            else:
+                new = new + [gen.clean(gen.rand_axis(rng, "t", n=1))]
+        elif r < 0.5 and rank >= 2 and form != "lists":
+            malformed = "dupname"
+            new[1]["name"] = new[0]["name"]
+            form = rng.choice(["pairs", "objs"])       # (an Axes object with duplicate names cannot be built)
+        if malformed in ("size", "count") and SKIP_AXES_SETTER_UNCHECKED:
+            form = "Axes"          # TODO(defect): see SKIP_AXES_SETTER_UNCHECKED
+        return {"op": "axset", "axes": old, "new": new, "vkind": arr["vkind"], "form": form, "_malformed": malformed}
+
+    def gen_hist(self, rng, tier="quick"):
+        """a history of derivations, queries, relabellings, renamings and assignments over a few live arrays and
+        Datasets, then probes.  Every index of a step is reduced modulo the extent it addresses when the step runs."""
+        rank = rng.choice([1, 1, 2, 2, 2, 3])
+        kinds = [rng.choice(["i", "i", "f", "O"]) for _ in range(rank)]
+        arr = gen.clean(gen.rand_array(rng, rank=rank, maxn=5 if rank < 3 else 3, minn=2, kinds=kinds))
         arr["vkind"] = rng.choice(["f", "f", "i"])
-        shapes = [[len(a["labels"]) for a in arr["axes"]]]
+        more = []
+        if rng.random() < 0.5:
+            # a second array over (some of) the same dimensions, with overlapping labels
+            sub = rng.sample(range(rank), rng.randint(1, rank))
+            axes2 = []
+            for i in sorted(sub):
+                ax = arr["axes"][i]
+                axes2.append(gen.clean(gen.rand_axis(rng, ax["name"], kind=ax["kind"], maxn=4, minn=1)))
+            more.append({"axes": axes2, "vkind": rng.choice(["f", "i"])})
+        # a theme multiplies the weight of one family of steps (Datasets, grouped axes, label / name setters, views)
+        theme = rng.choice([None, None, "ds", "grouped", "labels", "views"])
+        fam = {"ds": ("ds_new", "ds_put", "ds_get", "ds_op", "ds_mut"), "grouped": ("flatten", "unflatten", "reshape", "query", "relabel"),
+               "labels": ("relabel", "set_labels", "rename", "sort_inplace", "query", "transpose", "ctor_from"),
+               "views": ("slice", "take", "index", "relabel", "set_labels", "sort_inplace", "query")}.get(theme, ())
+        names = [s for s, w in STEP_W for _ in range(w * (4 if s in fam else 1))]
         steps = []
-        for _ in range(rng.randint(1, 5)):
-            k = rng.randrange(len(shapes))
-            sh = shapes[k]
-            d = rng.randrange(len(sh))
-            r = rng.random()
-            if r < 0.35:
-                steps.append(["query", k, rng.choice(["add_other", "is_monotonic", "align_other", "sort_axis", "reindex_other", "radd_other"]), d])
-            elif r < 0.55 and sh[d] >= 1:
-                lo = rng.randint(0, max(0, sh[d] - 1)); hi = rng.randint(lo, sh[d])
-                steps.append(["slice", k, d, lo, hi]); shapes.append(sh[:d] + [hi - lo] + sh[d + 1:])
-            elif r < 0.65 and sh[d] >= 1:
-                ps = [rng.randrange(sh[d]) for _ in range(rng.randint(1, 3))]
-                steps.append(["take", k, d, ps]); shapes.append(sh[:d] + [len(ps)] + sh[d + 1:])
-            elif r < 0.70:
-                steps.append(["transpose", k]); shapes.append(sh[::-1])
-            elif r < 0.74 and sh[d] >= 2:
-                # sorted by a key whose order is not the natural order of the labels
-                steps.append(["sort_key", k, d, rng.choice([2, 4, 6])]); shapes.append(list(sh))
-            elif r < 0.78:
-                steps.append(["copy", k]); shapes.append(list(sh))
-            elif r < 0.86 and sh[d] >= 1:
-                steps.append(["relabel", k, d, rng.randrange(sh[d]), rng.choice([-7, 50, 3, 12])])
-            elif r < 0.93:
-                # assignment through the `values` setter: a scalar or a row, broadcast over the array
+        ri = lambda: rng.randrange(12)
+        for _ in range(rng.randint(2, 8)):
+            t = rng.choice(names)
+            k = ri()
+            if t == "query":
+                steps.append(["query", k, rng.choice(QUERIES), ri()])
+            elif t == "slice":
+                lo = rng.randint(0, 4)
+                d = ri()
+                if rng.random() < 0.5:
+                    steps.append(["query", k, "is_monotonic", d])
+                steps.append(["slice", k, d, lo, rng.randint(lo, 5)])
+            elif t == "take":
+                d = ri()
+                if rng.random() < 0.5:
+                    steps.append(["query", k, "is_monotonic", d])
+                steps.append(["take", k, d, [ri() for _ in range(rng.randint(1, 3))]])
+            elif t in ("transpose", "copy", "unflatten", "squeeze"):
+                steps.append([t, k])
+            elif t == "sort_key":
+                steps.append(["sort_key", k, ri(), rng.choice([2, 4, 6])])
+            elif t in ("relabel", "sort_inplace", "set_labels") and rng.random() < 0.7:
+                # the cached state of the axis about to be changed is populated first (same array, same dimension)
+                d = ri()
+                steps.append(["query", k, rng.choice(["is_monotonic", "is_monotonic", "add_other", "union", "align_other", "labels"]), d])
+                if t == "relabel":
+                    steps.append(["relabel", k, d, ri(), rng.choice([-7, 50, 3, 12, 2.5])])
+                elif t == "sort_inplace":
+                    steps.append(["sort_inplace", k, d])
+                else:
+                    steps.append(["set_labels", k, d, rng.choice(SET_VIA), rng.choice(SET_HOW)])
+            elif t == "relabel":
+                steps.append(["relabel", k, ri(), ri(), rng.choice([-7, 50, 3, 12, 2.5])])
+            elif t == "set_values":
                 steps.append(["set_values", k, rng.choice(["nan", "float", "row", "int"])])
-            elif sh[d] >= 1:
-                steps.append(["sort_inplace", k, d])
-        return {"op": "hist", "array": arr, "steps": steps, "forms": []}
+            elif t == "sort_inplace":
+                steps.append(["sort_inplace", k, ri()])
+            elif t == "set_labels":
+                steps.append(["set_labels", k, ri(), rng.choice(SET_VIA), rng.choice(SET_HOW)])
+            elif t == "rename":
+                steps.append(["rename", k, ri(), rng.choice(["name_setter", "set_axis_name", "dims_setter", "dims_dict", "axis_set_name",
+                                                             "axes_setitem", "set_axis_copy"])])
+            elif t == "reduce":
+                steps.append(["reduce", k, ri(), rng.choice(["sum", "mean", "min", "max", "median", "prod", "std"])])
+            elif t == "cum":
+                steps.append(["cum", k, ri(), rng.choice(["cumsum", "cumprod", "diff"])])
+            elif t == "flatten":
+                steps.append(["flatten", k, rng.choice(["all", "pair", "pair"]), ri(), ri()])
+            elif t == "reshape":
+                steps.append(["reshape", k, ri(), ri()])
+            elif t == "newaxis":
+                steps.append(["newaxis", k, ri(), rng.choice([0, 0, 2])])
+            elif t == "swapaxes":
+                steps.append(["swapaxes", k, ri(), ri()])
+            elif t in ("broadcast", "reindex_like"):
+                steps.append([t, k, ri()])
+            elif t == "stack":
+                steps.append(["stack", k, ri(), rng.choice(["keys", "nokeys"])])
+            elif t == "concat":
+                steps.append(["concat", k, ri(), ri(), rng.choice([0, 1])])
+            elif t == "arith":
+                steps.append(["arith", k, ri(), rng.choice(["add_env", "mul_env", "mul2", "neg", "add_other", "gt_env"]), ri()])
+            elif t == "reindex":
+                steps.append(["reindex", k, ri(), rng.choice(["other", "rev", "sub"])])
+            elif t == "align":
+                steps.append(["align", k, ri(), rng.choice(["outer", "inner"]), rng.choice([0, 0, 1])])
+            elif t == "dropna":
+                steps.append(["dropna", k, ri(), rng.choice(["dropna", "fillna"])])
+            elif t == "ctor_from":
+                steps.append(["ctor_from", k, rng.choice(["DimArray", "values+Axes", "zeros_like", "ones_like", "nans_like"])])
+            elif t == "index":
+                steps.append(["index", k, ri(), ri(), rng.choice(["label", "pos", "getitem"])])
+            elif t == "setitem":
+                steps.append(["setitem", k, ri(), ri(), rng.choice(["label", "ix", "put", "bool", "fill"]), rng.choice([7, 2.5, "nan"])])
+            elif t == "ds_new":
+                steps.append(["ds_new", k])
+            elif t == "ds_put":
+                steps.append(["ds_put", ri(), k])
+            elif t == "ds_get":
+                steps.append(["ds_get", ri(), ri()])
+            elif t == "ds_op":
+                steps.append(["ds_op", ri(), rng.choice(["take_pos", "mean", "sort_axis", "reindex", "copy", "to_array"]), ri(), ri()])
+            elif t == "ds_mut":
+                steps.append(["ds_mut", ri(), rng.choice(["set_axis_vals", "set_axis_longer", "rename_axes", "set_axis_name", "del", "axes_relabel",
+                                                           "axes_setitem_longer"]), ri(), ri()])
+        probes = {"dim": ["is_monotonic"] + rng.sample(DIM_PROBES[:9] + DIM_PROBES[10:], 6 if tier == "quick" else 10),
+                  "arr": ["labels"] + rng.sample([p for p in ARR_PROBES if p != "labels"], 3 if tier == "quick" else 6)}
+        out = {"op": "hist", "array": arr, "steps": steps, "forms": [], "probes": probes, "theme": theme}
+        if more:
+            out["more"] = more
+        return out
+
+    def gen_grid(self, rng, tier):
+        """short systematic histories: (A) every label setter x every kind of new labels on an axis whose cached state
+        was populated; (B) every derivation followed by a change of the labels / name of the DERIVED array (its axes may
+        be shared with the source), both arrays' caches populated first"""
+        def base(rank, order):
+            kinds = [rng.choice(["i", "f", "O"]) for _ in range(rank)]
+            dims = rng.sample(gen.DIMS, rank)
+            axes = [gen.clean(gen.rand_axis(rng, d, kind=k, n=rng.choice([3, 4]), order=order if i == 0 else None)) for i, (d, k) in enumerate(zip(dims, kinds))]
+            return {"axes": axes, "vkind": rng.choice(["f", "i"])}
+        cheap = {"dim": ["is_monotonic", "add", "union", "align", "sort_axis", "loc_first"], "arr": ["labels", "sizes", "repr"]}
+        for via in sorted(set(SET_VIA)):
+            for how in ("rot", "sorted", "swap", "longer"):
+                for order in ("inc", "shuf"):
+                    if (how == "sorted") == (order == "inc") and how != "longer":
+                        continue            # (sorting sorted labels / unsorting unsorted ones changes no cached answer)
+                    yield {"op": "hist", "array": base(rng.choice([1, 2]), order), "forms": [], "probes": cheap, "theme": "gridA",
+                           "steps": [["query", 0, rng.choice(["is_monotonic", "add_other", "union"]), 0], ["set_labels", 0, 0, via, how]]}
+        derivs = [["slice", 0, 0, 0, 3], ["slice", 0, 0, 1, 4], ["take", 0, 0, [0, 1, 2]], ["take", 0, 0, [2, 0, 1]], ["index", 0, 1, 0, "pos"],
+                  ["index", 0, 1, 1, "label"], ["transpose", 0], ["copy", 0], ["squeeze", 0], ["newaxis", 0, 0, 0], ["swapaxes", 0, 0, 1],
+                  ["reduce", 0, 1, "sum"], ["cum", 0, 1, "cumsum"], ["reindex", 0, 1, "rev"], ["sort_key", 0, 0, 4], ["arith", 0, 0, "mul2", 0],
+                  ["arith", 0, 0, "neg", 0], ["dropna", 0, 0, "fillna"], ["set_labels", 0, 1, "set_axis_copy", "same"], ["ds_get", 0, 0],
+                  ["align", 0, 0, "outer", 0], ["broadcast", 0, 0], ["setitem", 0, 0, 0, "ix", 7]] + \
+                 [["ctor_from", 0, h] for h in ("DimArray", "values+Axes", "zeros_like", "ones_like", "nans_like")]
+        muts = [lambda d: ["relabel", 1, d, rng.randrange(3), rng.choice([-7, 50, 2.5])], lambda d: ["sort_inplace", 1, d],
+                lambda d: ["set_labels", 1, d, "values_setter", rng.choice(["rot", "sorted", "swap"])],
+                lambda d: ["rename", 1, d, rng.choice(["name_setter", "dims_dict", "set_axis_name"])]]
+        for dv in derivs:
+            for mi, mut in enumerate(muts):
+                core_dv = dv[0] in ("slice", "take", "transpose", "ctor_from", "squeeze", "copy", "ds_get")
+                if tier == "quick" and not core_dv and rng.random() < 0.45:
+                    continue
+                # (a position slice used to hand out a VIEW of the parent's labels: more draws for that family)
+                for _ in range(3 if dv[0] == "slice" and mi in (0, 2) else 1):
+                    d = 0 if dv[0] in ("slice", "take") and rng.random() < 0.8 else rng.choice([0, 0, 1])
+                    order = rng.choice(["inc", "dec", "shuf"]) if mi != 1 else "shuf"
+                    steps = [["query", 0, "is_monotonic", 0], ["query", 0, "is_monotonic", 1]]
+                    if dv[0] == "ds_get":
+                        steps.append(["ds_new", 0])
+                    steps += [dv, ["query", 1, "is_monotonic", 0], ["query", 1, "is_monotonic", 1], mut(d)]
+                    yield {"op": "hist", "array": base(2, order), "forms": [], "probes": cheap, "theme": "gridB", "steps": steps}
 
     def gen(self, rng, tier):
-        n = 500 if tier == "quick" else 8000
-        for _ in range(300 if tier == "quick" else 8000):
-            yield self.gen_hist(rng)
-        for _ in range(n):
+        quick = tier == "quick"
+        for c in self.gen_grid(rng, tier):
+            yield c
+        if not quick:
+            for _ in range(6):
+                for c in self.gen_grid(rng, tier):
+                    yield c
+        for _ in range(230 if quick else 8000):
+            yield self.gen_hist(rng, tier)
+        for _ in range(500 if quick else 8000):
             r = rng.random()
             if r < 0.6:
                 yield self.gen_ctor(rng)
@@ -232,6 +721,14 @@ class C05(Prop):
                 yield self.gen_xnames(rng)
             else:
                 yield self.gen_helper(rng)
+        for _ in range(600 if quick else 6000):
+            r = rng.random()
+            if r < 0.5:
+                yield self.gen_ctor2(rng)
+            elif r < 0.75:
+                yield self.gen_helper2(rng)
+            else:
+                yield self.gen_axset(rng)
 
     # ------------------------------------------------------------ implementation side
     def values_of(self, c):
@@ -246,104 +743,602 @@ class C05(Prop):
     def other_for(self, x, d):
         """an array sharing dimension d with labels overlapping those of x"""
         ax = x.axes[d]
-        labs = np.array(sorted(set([0, 2] + [int(v) for v in np.asarray(ax.values, dtype=float)[:1]])), dtype=ax.values.dtype if ax.values.dtype.kind in "if" else float)
+        vals = ax.values
+        if vals.dtype.kind in "if":
+            labs = np.array(sorted(set([0, 2] + [int(v) for v in np.asarray(vals, dtype=float)[:1]])), dtype=vals.dtype)
+        elif vals.dtype.kind == "O":
+            items = []
+            for v in ["a", "c"] + list(vals[:1]):
+                if not any(type(v) is type(w) and v == w for w in items):
+                    items.append(v)
+            labs = _obj_array(items)
+        else:
+            labs = np.array(sorted(set([0, 2] + [int(v) for v in np.asarray(vals, dtype=float)[:1]])), dtype=float)
         return DimArray(np.arange(len(labs)) * 100.0, axes=[Axis(labs, ax.name)])
 
+    # -- one step of a history; returns "ok" / "skip" (an exception is caught by the caller)
+    def step(self, st, S):
+        env, dss = S.env, S.dss
+        t = st[0]
+        if t.startswith("ds_"):
+            return self.step_ds(st, S)
+        a = env[st[1] % len(env)]
+        nd = a.ndim
+
+        def push(r):
+            if isinstance(r, DimArray) and len(env) < MAX_ENV and r.values.size <= MAX_CELLS and r.ndim <= 4:
+                env.append(r)
+                return "ok"
+            return "ok" if not isinstance(r, DimArray) else "skip"
+
+        def frozen(ax):
+            # TODO(defect): see SKIP_GROUPED_MEMBER_MUTATION
+            return isinstance(ax, MultiAxis) or (SKIP_GROUPED_MEMBER_MUTATION and S.is_live_member(ax))
+
+        def groupable(idx):
+            # TODO(defect): see SKIP_FLATTEN_EMPTY_OR_NESTED
+            return not SKIP_FLATTEN_EMPTY_OR_NESTED or all(not isinstance(a.axes[i], MultiAxis) and a.shape[i] > 0 for i in idx)
+
+        if t == "query":
+            if nd == 0:
+                return "skip"
+            q, d = st[2], st[3] % nd
+            if q == "is_monotonic":
+                a.axes[d].is_monotonic()
+            elif q == "sort_axis":
+                a.sort_axis(axis=d)
+            elif q == "repr":
+                repr(a)
+            elif q == "labels":
+                [np.asarray(l).tolist() for l in a.labels]
+            elif q == "sizes":
+                [int(ax.size) for ax in a.axes]
+            elif q == "flat_labels":
+                if nd >= 2 and groupable(range(nd)):
+                    a.flatten().axes[0].values
+            elif q == "sum":
+                a.sum(axis=d)
+            else:
+                o = self.other_for(a, d)
+                if q == "add_other":
+                    a + o
+                elif q == "radd_other":
+                    o + a
+                elif q == "align_other":
+                    da.align([a, o], join="outer")
+                elif q == "align_inner":
+                    da.align((a, o), join="inner")
+                elif q == "reindex_other":
+                    a.reindex_axis(o.axes[0].values, axis=d)
+                elif q == "union":
+                    a.axes[d].union(o.axes[0])
+            return "ok"
+        if t in ("transpose", "copy", "unflatten", "squeeze", "ctor_from"):
+            if t == "transpose":
+                return push(a.transpose() if nd <= 2 else a.transpose(*a.dims[::-1]))
+            if t == "copy":
+                return push(a.copy())
+            if t == "unflatten":
+                return push(a.unflatten())
+            if t == "squeeze":
+                return push(a.squeeze())
+            how = st[2]
+            if how == "DimArray":
+                return push(DimArray(a))
+            if how == "values+Axes":
+                return push(DimArray(a.values, a.axes))
+            return push(getattr(da, how)(a))
+        if t == "set_values":
+            how = st[2]
+            if how == "nan":
+                a.values = np.nan
+            elif how == "float":
+                a.values = 2.5
+            elif how == "int":
+                a.values = 7
+            else:
+                a.values = np.arange(a.shape[-1]) + 0.5
+            return "ok"
+        if nd == 0:
+            return "skip"
+        # ---- steps combining two live arrays / addressing dimensions by position
+        if t in ("stack", "broadcast", "reindex_like"):
+            b = env[st[2] % len(env)]
+            if t == "stack":
+                return push(da.stack([a, b], axis=S.fresh("s"), keys=["p", "q"] if st[3] == "keys" else None, align=True))
+            if t == "broadcast":
+                return push(a.broadcast(b))
+            return push(a.reindex_like(b))
+        if t == "flatten":
+            if st[2] == "all" or nd < 2:
+                if not groupable(range(nd)):
+                    return "skip"
+                return push(a.flatten())
+            i, j = st[3] % nd, st[4] % nd
+            if i == j:
+                j = (i + 1) % nd
+            if not groupable([i, j]):
+                return "skip"
+            return push(a.flatten(a.dims[i], a.dims[j]))
+        if t == "reshape":
+            if nd < 2:
+                return "skip"
+            i, j = st[2] % nd, st[3] % nd
+            if i == j:
+                j = (i + 1) % nd
+            if any("," in n for n in a.dims) or not groupable([i, j]):
+                return "skip"
+            rest = [n for n in a.dims if n not in (a.dims[i], a.dims[j])]
+            return push(a.reshape(*(["%s,%s" % (a.dims[i], a.dims[j])] + rest)))
+        if t == "newaxis":
+            return push(a.newaxis(S.fresh("n"), values=[4, 5] if st[3] == 2 else None, pos=st[2] % (nd + 1)))
+        if t == "swapaxes":
+            return push(a.swapaxes(st[2] % nd, st[3] % nd))
+        if t == "concat":
+            b = env[st[2] % len(env)]
+            return push(da.concatenate([a, b], axis=a.dims[st[3] % nd], align=bool(st[4])))
+        if t == "align":
+            b = env[st[2] % len(env)]
+            r = da.align([a, b], join=st[3], sort=bool(st[4]))
+            for x in r:
+                if x is not a and x is not b:
+                    push(x)
+            return "ok"
+        if t == "arith":
+            b = env[st[2] % len(env)]
+            op = st[3]
+            if op == "add_env":
+                return push(a + b)
+            if op == "mul_env":
+                return push(a * b)
+            if op == "gt_env":
+                return push(a > b)
+            if op == "mul2":
+                return push(a * 2)
+            if op == "neg":
+                return push(-a)
+            return push(a + self.other_for(a, st[4] % nd))
+        d = st[2] % nd
+        ax = a.axes[d]
+        n = int(a.shape[d])
+        if t == "slice":
+            key = tuple(slice(st[3], st[4]) if i == d else slice(None) for i in range(nd))
+            return push(a.ix[key])
+        if t == "take":
+            if n == 0:
+                return "skip"
+            return push(a.take([p % n for p in st[3]], axis=d, indexing="position"))
+        if t == "sort_key":
+            ctr = st[3]
+            if _is_num(ax.values):
+                return push(a.sort_axis(axis=d, key=lambda x: abs(float(x) - ctr)))
+            return push(a.sort_axis(axis=d, key=lambda x: (str(x)[::-1], str(x))))
+        if t == "reduce":
+            return push(getattr(a, st[3])(axis=d))
+        if t == "cum":
+            return push(getattr(a, st[3])(axis=d))
+        if t == "reindex":
+            how = st[3]
+            if how == "other":
+                new = self.other_for(a, d).axes[0].values
+            elif how == "rev":
+                new = np.array(ax.values[::-1], copy=True)
+            else:
+                new = np.array(ax.values[::2], copy=True)
+            return push(a.reindex_axis(new, axis=d))
+        if t == "dropna":
+            if st[3] == "fillna":
+                return push(a.fillna(0))
+            return push(a.dropna(axis=d))
+        if t == "index":
+            if n == 0:
+                return "skip"
+            i = st[3] % n
+            if st[4] == "pos":
+                return push(a.ix[tuple(i if e == d else slice(None) for e in range(nd))])
+            if isinstance(ax, MultiAxis):
+                return "skip"
+            lab = ax.values[i]
+            if st[4] == "label":
+                return push(a.take(lab, axis=d))
+            return push(a[tuple(lab if e == d else slice(None) for e in range(nd))])
+        if t == "setitem":
+            via, v = st[4], (np.nan if st[5] == "nan" else st[5])
+            if via == "fill":
+                a.fill(v)
+                return "ok"
+            if via == "bool":
+                a[a > 3] = v
+                return "ok"
+            if n == 0 or isinstance(ax, MultiAxis):
+                return "skip"
+            i = st[3] % n
+            if via == "ix":
+                a.ix[tuple(i if e == d else slice(None) for e in range(nd))] = v
+            elif via == "put":
+                a.put(ax.values[i], v, axis=d)
+            else:
+                a[tuple(ax.values[i] if e == d else slice(None) for e in range(nd))] = v
+            return "ok"
+        # ---- mutation of the labels / name of one axis
+        if t == "relabel":
+            if n == 0 or frozen(ax):
+                return "skip"
+            v = st[4]
+            if not _is_num(ax.values):
+                v = "L%s" % v      # (a str axis stays a str axis)
+            a.axes[d][st[3] % n] = v
+            return "ok"
+        if t == "sort_inplace":
+            if frozen(ax):
+                return "skip"
+            if SKIP_SORT_INPLACE_DUPLICATES and len(set(ax.values.tolist())) != n:
+                return "skip"       # TODO(defect): see SKIP_SORT_INPLACE_DUPLICATES
+            a.axes[d].sort()
+            return "ok"
+        if t == "set_labels":
+            if frozen(ax):
+                return "skip"
+            via, how = st[3], st[4]
+            cur = np.array(ax.values, copy=True)
+            num = _is_num(cur)
+            if how == "rev" or (how == "neg" and not num):
+                new = cur[::-1].copy()
+            elif how == "rot" or (how == "shift" and not num):
+                new = np.roll(cur, 1)
+            elif how == "neg":
+                new = -cur
+            elif how == "shift":
+                new = cur + 100
+            elif how == "sorted":
+                new = np.sort(cur)          # (mixed labels: TypeError, the step is dropped)
+            elif how == "swap":
+                new = cur.copy()
+                if n >= 2:
+                    new[0], new[1] = cur[1], cur[0]
+            elif how == "longer":
+                # one label too many: every setter must refuse it (the array stays well-formed either way)
+                new = np.concatenate([cur, cur[:1]]) if n else (np.array([1]) if num else _obj_array(["a"]))
+            else:
+                new = cur
+            if via == "values_setter":
+                a.axes[d].values = new
+            elif via == "set_axis_list":
+                a.set_axis(new, axis=d)
+            elif via == "set_axis_copy":
+                return push(a.set_axis(new, axis=d, inplace=False))
+            elif via == "set_axis_dict":
+                a.set_axis(dict(zip(cur.tolist(), new.tolist())), axis=a.dims[d])
+            elif via == "set_axis_fn":
+                if how == "neg" and num:
+                    a.set_axis(lambda x: -x, axis=d)
+                elif how == "shift" and num:
+                    a.set_axis(lambda x: x + 100, axis=d)
+                else:
+                    m = dict(zip(cur.tolist(), new.tolist()))
+                    a.set_axis(lambda x: m[x], axis=d)
+            elif via == "labels_setter":
+                if any(isinstance(x, MultiAxis) or frozen(x) for x in a.axes):
+                    return "skip"
+                a.labels = tuple(new if e == d else np.array(a.axes[e].values, copy=True) for e in range(nd))
+            elif via == "axes_setitem":
+                a.axes[d] = Axis(new, ax.name)
+            else:
+                a.axes[d].set(values=new)
+            return "ok"
+        if t == "rename":
+            if frozen(ax):
+                return "skip"
+            via = st[3]
+            new = S.fresh("r")       # a name no live array uses
+            if via == "name_setter":
+                a.axes[d].name = new
+            elif via == "set_axis_name":
+                a.set_axis(name=new, axis=d)
+            elif via == "set_axis_copy":
+                return push(a.set_axis(name=new, axis=a.dims[d], inplace=False))
+            elif via == "dims_setter":
+                if any(frozen(x) for x in a.axes):
+                    return "skip"
+                a.dims = tuple(new if e == d else a.dims[e] for e in range(nd))
+            elif via == "dims_dict":
+                a.dims = {a.dims[d]: new}
+            elif via == "axis_set_name":
+                a.axes[d].set(name=new)
+            else:
+                a.axes[d] = Axis(np.array(ax.values, copy=True), new)
+            return "ok"
+        raise ValueError("unknown step %r" % (t,))
+
+    def step_ds(self, st, S):
+        env, dss = S.env, S.dss
+        t = st[0]
+        if t == "ds_new":
+            if len(dss) >= MAX_DS:
+                return "skip"
+            ds = Dataset()
+            ds[S.fresh("v")] = env[st[1] % len(env)]
+            dss.append(ds)
+            return "ok"
+        if not dss:
+            # (a Dataset step before any `ds_new`: the Dataset is made on the spot from one live array)
+            ds0 = Dataset()
+            ds0[S.fresh("v")] = env[st[1] % len(env)]
+            dss.append(ds0)
+        ds = dss[st[1] % len(dss)]
+        if t == "ds_put":
+            ds[S.fresh("v")] = env[st[2] % len(env)]
+            return "ok"
+        keys = list(ds.keys())
+        if t == "ds_get":
+            if not keys or len(env) >= MAX_ENV:
+                return "skip"
+            env.append(ds[keys[st[2] % len(keys)]])
+            return "ok"
+        if len(ds.axes) == 0:
+            return "skip"
+        d = st[3] % len(ds.axes)
+        ax = ds.axes[d]
+        n = int(ax.size)
+        which = st[2]
+        if t == "ds_op":
+            if which == "copy":
+                r = ds.copy()
+            elif which == "to_array":
+                r = ds.to_array()
+                if isinstance(r, DimArray) and len(env) < MAX_ENV and r.values.size <= MAX_CELLS:
+                    env.append(r)
+                return "ok"
+            elif which == "mean":
+                r = ds.mean(axis=ax.name)
+            elif which == "sort_axis":
+                r = ds.sort_axis(axis=ax.name)
+            elif which == "take_pos":
+                if n == 0:
+                    return "skip"
+                r = ds.take(indices=[st[4] % n], axis=ax.name, indexing="position")
+            else:
+                r = ds.reindex_axis(np.array(ax.values[::-1], copy=True), axis=ax.name)
+            if isinstance(r, Dataset) and len(dss) < MAX_DS:
+                dss.append(r)
+                return "ok"
+            return "skip"
+        if t == "ds_mut":
+            frozen = isinstance(ax, MultiAxis) or (SKIP_GROUPED_MEMBER_MUTATION and S.is_live_member(ax))
+            if which == "del":
+                if len(keys) < 2:
+                    return "skip"
+                del ds[keys[st[4] % len(keys)]]
+                return "ok"
+            if frozen:
+                return "skip"
+            if which == "set_axis_vals":
+                ds.set_axis(np.array(ax.values[::-1], copy=True), axis=ax.name)
+            elif which in ("set_axis_longer", "axes_setitem_longer"):
+                # one label too many: must be refused (every variable stays well-formed either way)
+                longer = np.concatenate([ax.values, ax.values[:1]]) if n else np.array([1])
+                if which == "set_axis_longer":
+                    ds.set_axis(longer, axis=ax.name)
+                else:
+                    ds.axes[ax.name] = Axis(longer, ax.name)
+            elif which == "rename_axes":
+                ds.rename_axes({ax.name: S.fresh("r")})
+            elif which == "set_axis_name":
+                ds.set_axis(name=S.fresh("r"), axis=ax.name)
+            else:
+                if n == 0:
+                    return "skip"
+                ds.axes[ax.name][st[4] % n] = 33 if _is_num(ax.values) else "L33"
+            return "ok"
+        raise ValueError("unknown step %r" % (t,))
+
+    def run_probe(self, name, x, d, o):
+        ax = x.axes[d] if d is not None else None
+        if name == "add":
+            return x + o
+        if name == "radd":
+            return o + x
+        if name == "align":
+            return da.align([x, o], join="outer")
+        if name == "align_inner":
+            return da.align((x, o), join="inner")
+        if name == "align_sort":
+            return da.align([x, o], join="outer", sort=True)
+        if name == "reindex":
+            return x.reindex_axis(o.axes[0].values, axis=d)
+        if name == "reindex_like":
+            return o.reindex_like(x)
+        if name == "sort_axis":
+            return x.sort_axis(axis=d)
+        if name == "slice":
+            return x.take(slice(ax.values.min(), None), axis=d) if ax.size else x
+        if name == "loc_first":
+            return x.take([ax.values[0]], axis=d) if ax.size else x
+        if name == "take_pos":
+            return x.take([0], axis=d, indexing="position") if ax.size else x
+        if name == "is_monotonic":
+            return bool(ax.is_monotonic())
+        if name == "sum":
+            return x.sum(axis=d)
+        if name == "cumsum":
+            return x.cumsum(axis=d)
+        if name == "concat":
+            return da.concatenate([x, x], axis=x.dims[d])
+        if name == "union":
+            return ax.union(o.axes[0]).values
+        if name == "intersection":
+            return ax.intersection(o.axes[0]).values
+        # whole-array probes
+        if name == "repr":
+            return repr(x)
+        if name == "flatten":
+            return x.flatten() if x.ndim >= 2 else x
+        if name == "unflatten":
+            return x.unflatten()
+        if name == "transpose":
+            return x.T
+        if name == "stack":
+            return da.stack([x, x], axis="s_", keys=["p", "q"])
+        if name == "dataset":
+            return Dataset({"v": x})
+        if name == "neg":
+            return -x
+        if name == "copy":
+            return x.copy()
+        if name == "labels":
+            return [np.asarray(l) for l in x.labels]
+        if name == "sizes":
+            return [int(a.size) for a in x.axes]
+        if name == "eq":
+            return x == x
+        raise ValueError(name)
+
     def run_hist(self, c):
-        import warnings
         env = [core.build_array(c["array"], 0)]
+        for i, ad in enumerate(c.get("more", [])):
+            env.append(core.build_array(ad, i + 1))
+        S = HistState(env)
+        log = []
+        old_style = "probes" not in c        # (replays recorded before the history steps were extended)
         for st in c["steps"]:
-            t, k = st[0], st[1]
-            a = env[k]
+            n0 = len(env)
             try:
                 with warnings.catch_warnings():
                     warnings.simplefilter("ignore")
-                    if t == "query":
-                        q, d = st[2], st[3]
-                        o = self.other_for(a, d)
-                        if q == "add_other":
-                            a + o
-                        elif q == "radd_other":
-                            o + a
-                        elif q == "is_monotonic":
-                            a.axes[d].is_monotonic()
-                        elif q == "align_other":
-                            da.align(a, o, join="outer")
-                        elif q == "sort_axis":
-                            a.sort_axis(axis=d)
-                        elif q == "reindex_other":
-                            a.reindex_axis(o.axes[0].values, axis=d)
-                    elif t == "slice":
-                        key = tuple(slice(st[3], st[4]) if i == st[2] else slice(None) for i in range(a.ndim))
-                        env.append(a.ix[key])
-                    elif t == "take":
-                        env.append(a.take(list(st[3]), axis=st[2], indexing="position"))
-                    elif t == "transpose":
-                        env.append(a.transpose())
-                    elif t == "sort_key":
-                        ctr = st[3]
-                        env.append(a.sort_axis(axis=st[2], key=lambda x: abs(float(x) - ctr)))
-                    elif t == "copy":
-                        env.append(a.copy())
-                    elif t == "relabel":
-                        a.axes[st[2]][st[3]] = st[4]
-                    elif t == "set_values":
-                        how = st[2]
-                        if how == "nan":
-                            a.values = np.nan
-                        elif how == "float":
-                            a.values = 2.5
-                        elif how == "int":
-                            a.values = 7
-                        else:
-                            a.values = np.arange(a.shape[-1]) + 0.5
-                    elif t == "sort_inplace":
-                        pass
-            except Exception:
-                if t in ("slice", "take", "transpose", "copy", "sort_key"):
-                    env.append(a)
-        # every live array is still well-formed: one axis per dimension, of the length of that dimension
+                    log.append(self.step(st, S))
+            except Exception as e:  # noqa
+                log.append("err:" + core.exc_class(e))
+                if old_style and st[0] in ("slice", "take", "transpose", "copy", "sort_key") and len(env) == n0:
+                    env.append(env[st[1] % len(env)])
+        # every live array - and every variable of every live Dataset - is still well-formed: one 1-D axis per
+        # dimension, of the length of that dimension, under distinct non-empty names
         illformed = []
-        for k, a in enumerate(env):
+        live = S.arrays()
+
+        def _n(ax):
+            try:
+                return int(np.size(ax.values))
+            except Exception as e:  # noqa
+                return type(e).__name__
+        for k, a in enumerate(live):
             if not isinstance(a, DimArray):
                 illformed.append({"var": k, "not_a_dimarray": type(a).__name__})
-            elif len(a.axes) != np.ndim(a.values) or tuple(ax.size for ax in a.axes) != np.shape(a.values):
-                illformed.append({"var": k, "axes": [int(ax.size) for ax in a.axes], "values_shape": list(np.shape(a.values))})
+                continue
+            why = wf_problem(a)
+            if why:
+                illformed.append({"var": k, "why": why, "dims": [str(getattr(ax, "name", None)) for ax in a.axes],
+                                  "axes": [_n(ax) for ax in a.axes], "values_shape": list(np.shape(a.values))})
         if illformed:
-            return {"ok": [], "illformed": illformed}
+            return {"ok": [], "illformed": illformed, "steps": log}
         # probes: every live array against a freshly constructed equal array
+        P = c.get("probes", OLD_PROBES)
+        if len(live) > MAX_PROBED and not old_style:
+            live = live[:1] + live[-(MAX_PROBED - 1):]
         out = []
-        for a in env:
-            f = DimArray(np.array(a.values, copy=True), axes=[Axis(np.array(ax.values, copy=True), ax.name) for ax in a.axes])
+
+        def run(name, x, d, o):
+            with warnings.catch_warnings():
+                warnings.simplefilter("ignore")
+                return conv(self.run_probe(name, x, d, o))
+        for a in live:
+            f = fresh_of(a)
             res = []
             for d in range(a.ndim):
-                o = self.other_for(f, d)
-                probes = [("add", lambda x: x + o), ("radd", lambda x: o + x), ("align", lambda x: da.align(x, o, join="outer")[0]),
-                          ("align_sort", lambda x: da.align(x, o, join="outer", sort=True)[0]),
-                          ("reindex", lambda x: x.reindex_axis(o.axes[0].values, axis=d)),
-                          ("sort_axis", lambda x: x.sort_axis(axis=d)),
-                          ("slice", lambda x: x.take(slice(x.axes[d].values.min(), None), axis=d) if x.axes[d].size else x),
-                          ("loc_first", lambda x: x.take([x.axes[d].values[0]], axis=d) if x.axes[d].size else x),
-                          ("is_monotonic", lambda x: bool(x.axes[d].is_monotonic()))]
-                for name, fn in probes:
-                    def run(x):
-                        with warnings.catch_warnings():
-                            warnings.simplefilter("ignore")
-                            r = fn(x)
-                        return core.obs_array(r) if isinstance(r, DimArray) else r
-                    res.append({"probe": name, "d": d, "hist": core.guarded(lambda: run(a)), "fresh": core.guarded(lambda: run(f))})
+                try:
+                    o = self.other_for(f, d)
+                except Exception:  # noqa
+                    continue
+                for name in P["dim"]:
+                    res.append({"probe": name, "d": d, "hist": core.guarded(lambda: run(name, a, d, o)), "fresh": core.guarded(lambda: run(name, f, d, o))})
+            for name in P["arr"]:
+                res.append({"probe": name, "d": None, "hist": core.guarded(lambda: run(name, a, None, None)), "fresh": core.guarded(lambda: run(name, f, None, None))})
             out.append(res)
-        return {"ok": out}
+        return {"ok": out, "steps": log, "n_live": len(live), "n_ds": len(S.dss),
+                "kinds": sorted({core.ckind(ax.values.dtype.kind) if not isinstance(ax, MultiAxis) else "grouped" for a in live for ax in a.axes}),
+                "max_rank": max([a.ndim for a in live] + [0])}
+
+    # -- forms outside the mirror
+    def run_ctor2(self, c):
+        outs = []
+        for form in c["forms"]:
+            vals = core.make_values(tuple(c["shape"]), c["vkind"], 0)
+            outs.append(core.guarded(lambda: core.obs_array(build_variant2(form, c["axes"], vals))))
+        return {"ok": outs}
+
+    def run_helper2(self, c):
+        axes = c["axes"]
+        dims = [a["name"] for a in axes]
+        labs = [py_labels(a) for a in axes]
+        shape = tuple(len(l) for l in labs)
+        pairs = list(zip(dims, labs))
+        h, form = c["helper"], c["form"]
+        dt = {"int": int, "bool": bool, "float": float}[c["dtype"]]
+
+        def run():
+            if form in ("like", "like_dtype"):
+                src = DimArray(core.make_values(shape, c["vkind"], 0), axes=pairs)
+                fn = getattr(da, h + "_like")
+                r = fn(src, dtype=dt) if form == "like_dtype" else fn(src)
+            else:
+                fn = getattr(da, h)
+                if form == "shape+dims":
+                    r = fn(shape=shape, dims=dims)
+                elif form == "shape":
+                    r = fn(shape=shape)
+                elif form == "pos_pairs":
+                    r = fn(pairs)
+                elif form == "dtype":
+                    r = fn(axes=pairs, dtype=dt)
+                elif form == "axes+shape":
+                    r = fn(axes=labs, dims=dims, shape=shape)
+                else:
+                    bad = list(shape)
+                    bad[0] += 1
+                    r = fn(axes=labs, dims=dims, shape=tuple(bad))
+            o = core.obs_array(r)
+            want = {"zeros": 0, "ones": 1}.get(h)
+            if want is not None:
+                o["all_const"] = bool(np.all(r.values == want))
+            elif h == "nans":
+                o["all_const"] = bool(np.all(np.isnan(r.values)))
+            else:
+                o["all_const"] = True
+            o["values"] = []
+            return o
+        return core.guarded(run)
+
+    def run_axset(self, c):
+        a = core.build_array({"axes": c["axes"], "vkind": c["vkind"]}, 0)
+        before = core.obs_array(a)
+        dims = [x["name"] for x in c["new"]]
+        labs = [py_labels(x) for x in c["new"]]
+        form = c["form"]
+
+        def run():
+            if form == "lists":
+                a.axes = labs
+            elif form == "pairs":
+                a.axes = list(zip(dims, labs))
+            elif form == "objs":
+                a.axes = [Axis(l, d) for l, d in zip(labs, dims)]
+            else:
+                a.axes = Axes([Axis(l, d) for l, d in zip(labs, dims)])
+            return True
+        res = core.guarded(run)
+        why = wf_problem(a)
+        return {"set": res, "wf": why, "before": before, "after": core.guarded(lambda: core.obs_array(a))}
 
     def impl(self, c):
-        if c["op"] == "hist":
-            monitor_on()
-            try:
-                return self.run_hist(c)
-            finally:
-                monitor_off()
         monitor_on()
         try:
+            if c["op"] == "hist":
+                return self.run_hist(c)
+            if c["op"] == "ctor2":
+                return self.run_ctor2(c)
+            if c["op"] == "helper2":
+                return self.run_helper2(c)
+            if c["op"] == "axset":
+                return self.run_axset(c)
             if c["op"] == "helper":
                 axes = c["axes"]
                 dims = [a["name"] for a in axes]
@@ -376,29 +1371,117 @@ class C05(Prop):
             monitor_off()
 
     def request(self, c):
-        if c["op"] == "hist":
-            return {"op": "construct_group", "shape": [], "vkind": "f", "variants": []}
+        if c["op"] in ("hist", "ctor2", "helper2", "axset"):
+            return dict(DUMMY)
         if c["op"] == "helper":
             shape = [len(a["labels"]) for a in c["axes"]]
             return {"op": "construct_group", "shape": shape, "vkind": "f", "variants": [lean_variant(c["form"], c["axes"])]}
         return {"op": "construct_group", "shape": c["shape"], "vkind": c["vkind"],
                 "variants": [lean_variant(f, c["axes"]) for f in c["forms"]]}
 
+    # ------------------------------------------------------------ judges of the oracle-only strata
+    def judge_ctor2(self, c, io):
+        bad, detail = [], {}
+        vals = core.make_values(tuple(c["shape"]), c["vkind"], 0)
+        for form, o in zip(c["forms"], io["ok"]):
+            if c.get("_malformed"):
+                # data whose shape disagrees with the axes, or duplicate dimension names, are rejected
+                if "ok" in o:
+                    bad.append("accepted_malformed")
+                    detail.setdefault(form, {"dims": o["ok"]["dims"], "shape": o["ok"]["shape"]})
+                continue
+            if "err" in o:
+                bad.append("rejected_wellformed")
+                detail.setdefault(form, {"err": o["err"], "msg": o.get("msg")})
+                continue
+            d = diff_expected(o["ok"], expected2(form, c["axes"], vals))
+            if d:
+                bad += ["forms_agree." + x for x in d]
+                detail.setdefault(form, {"differs": d, "dims": o["ok"]["dims"], "shape": o["ok"]["shape"],
+                                         "labels": [a["labels"] for a in o["ok"]["axes"]], "values": o["ok"]["values"][:8]})
+        if not bad:
+            return None
+        return {"kind": "P", "differs": sorted(set(bad)), "detail": detail}
+
+    def judge_helper2(self, c, io):
+        bad = []
+        form = c["form"]
+        if form == "axes+shape_bad":
+            # a requested shape that disagrees with the axes is rejected
+            if "ok" in io:
+                bad.append("accepted_malformed")
+        elif "err" in io:
+            bad.append("rejected_wellformed")
+        else:
+            o = io["ok"]
+            axes = c["axes"]
+            shape = [len(a["labels"]) for a in axes]
+            exp = {"dims": [a["name"] for a in axes], "shape": shape, "labels": [a["labels"] for a in axes]}
+            if form in ("shape+dims", "shape"):
+                exp["labels"] = [[["n", i, 1] for i in range(s)] for s in shape]        # np.arange(n) along every dimension
+            if form == "shape":
+                exp["dims"] = ["x%d" % i for i in range(len(shape))]
+            bad += diff_expected(o, exp)
+            if not o["all_const"]:
+                bad.append("values")
+            # dtype: the requested one; *_like: the dtype of the template (nans: float)
+            if c["helper"] == "nans":
+                want = "f"
+            elif form in ("dtype", "like_dtype"):
+                want = {"int": "i", "bool": "b", "float": "f"}[c["dtype"]]
+            elif form == "like":
+                want = c["vkind"]
+            else:
+                want = "f"
+            if o["vkind"] != want:
+                bad.append("values.dtype")
+        if not bad:
+            return None
+        return {"kind": "P", "differs": sorted(set(bad)), "impl": io}
+
+    def judge_axset(self, c, io):
+        bad = []
+        if io["wf"]:
+            bad.append("illformed_after_axes_setter:" + io["wf"])
+        after = io["after"]
+        if "err" in after:
+            bad.append("unobservable_after_axes_setter")
+        elif c.get("_malformed"):
+            if "ok" in io["set"]:
+                bad.append("accepted_malformed")
+        else:
+            if "err" in io["set"]:
+                bad.append("rejected_wellformed")
+            else:
+                new = c["new"]
+                exp = {"dims": [a["name"] for a in new] if c["form"] != "lists" else ["x%d" % i for i in range(len(new))],
+                       "shape": io["before"]["shape"], "labels": [a["labels"] for a in new], "values": io["before"]["values"]}
+                bad += diff_expected(after["ok"], exp)
+        if not bad:
+            return None
+        return {"kind": "P", "differs": sorted(set(bad)), "impl": {k: io[k] for k in ("set", "wf")}}
+
     def judge(self, c, io, ans):
         bad = []
         detail = {}
+        if c["op"] == "ctor2":
+            return self.judge_ctor2(c, io)
+        if c["op"] == "helper2":
+            return self.judge_helper2(c, io)
+        if c["op"] == "axset":
+            return self.judge_axset(c, io)
         if c["op"] == "hist":
             if "err" in io:
                 return {"kind": "P", "differs": ["outcome:" + io["err"]], "msg": io.get("msg")}
             if io.get("illformed"):
-                return {"kind": "P", "differs": ["illformed_after_history"], "detail": {"first": io["illformed"][0]}}
+                return {"kind": "P", "differs": ["illformed_after_history"], "detail": {"first": io["illformed"][0], "steps": io.get("steps")}}
             for v, res in enumerate(io["ok"]):
                 for r in res:
                     h, f = r["hist"], r["fresh"]
                     same = (("err" in h) == ("err" in f)) and (("err" in h and h["err"] == f["err"]) or ("ok" in h and h["ok"] == f["ok"]))
                     if not same:
                         bad.append("history_dependent:%s" % r["probe"])
-                        detail.setdefault("first", {"var": v, "probe": r["probe"], "d": r["d"], "hist": h, "fresh": f})
+                        detail.setdefault("first", {"var": v, "probe": r["probe"], "d": r["d"], "hist": h, "fresh": f, "steps": io.get("steps")})
             if not bad:
                 return None
             return {"kind": "P", "differs": sorted(set(bad)), "detail": detail}
@@ -464,13 +1547,44 @@ class C05(Prop):
 
     def features(self, c, io):
         if c["op"] == "hist":
-            f = {"op": "hist", "rank": len(c["array"]["axes"]), "nsteps": len(c["steps"])}
-            for st in c["steps"]:
-                f["step:" + st[0] + (":" + st[2] if st[0] == "query" else "")] = 1
+            f = {"op": "hist", "rank": len(c["array"]["axes"]), "nsteps": len(c["steps"]), "second_array": bool(c.get("more")),
+                 "theme": c.get("theme")}
+            log = io.get("steps") or [None] * len(c["steps"])
+            for st, s in zip(c["steps"], log):
+                name = "step:" + st[0]
+                if st[0] == "query":
+                    name += ":" + st[2]
+                elif st[0] in ("set_labels", "rename"):
+                    name += ":" + st[3]
+                elif st[0] == "setitem":
+                    name += ":" + st[4]
+                elif st[0] in ("ds_op", "ds_mut", "ctor_from"):
+                    name += ":" + st[2]
+                f[name] = 1
+                if s is not None:
+                    f["ran:" + st[0] + ":" + s.split(":")[0]] = 1
+            for k in ("n_live", "n_ds", "max_rank"):
+                if k in io:
+                    f[k] = io[k]
+            for k in io.get("kinds", []):
+                f["label_kind:" + k] = 1
+            P = c.get("probes", OLD_PROBES)
+            for p in P["dim"] + P["arr"]:
+                f["probe:" + p] = 1
             return f
-        f = {"op": c["op"], "rank": len(c["axes"]), "malformed": c.get("_malformed"), "values_as": c.get("values_as")}
+        f = {"op": c["op"], "rank": len(c["axes"]), "malformed": c.get("_malformed")}
         if c["op"] == "ctor":
+            f["values_as"] = c.get("values_as")
             f["n_rejected"] = sum(1 for o in io["ok"] if "err" in o)
+        elif c["op"] == "ctor2":
+            for form, o in zip(c["forms"], io["ok"]):
+                f["form:" + form + (":rejected" if "err" in o else "")] = 1
+        elif c["op"] == "helper2":
+            f["form"] = c["helper"] + ":" + c["form"]
+            f["outcome"] = "err" if "err" in io else "ok"
+        elif c["op"] == "axset":
+            f["form"] = c["form"]
+            f["outcome"] = "err" if "err" in io["set"] else "ok"
         return f
 
     def size(self, c):
